@@ -64,6 +64,8 @@ type Tagged struct {
 	Swap    string `bexpr:"Plain2"`
 	Plain2  string `bexpr:"Swap"`
 	private string
+	privmap map[string]interface{}
+	privany interface{}
 	Inner   TagInner
 	PInner  *TagInner
 	List    []TagInner
@@ -99,7 +101,7 @@ func NewTagged3(sb, sj, sp string) Tagged {
 	in := TagInner{X: 1, Secret: sb, low: len(sp), Name: "n1" + sj}
 	return Tagged{
 		Plain: "plain", Renamed: "renamed", Hidden: sb, JHidden: sj, Opt: "opt", OnlyOpt: "oo",
-		Swap: "swap", Plain2: "plain2", private: sp,
+		Swap: "swap", Plain2: "plain2", private: sp, privmap: map[string]interface{}{sp: 1}, privany: map[string]interface{}{"k": sp},
 		Inner: in, PInner: &TagInner{X: 2, Secret: sb, low: 7 + len(sp), Name: "n2" + sj},
 		List:     []TagInner{in, {X: 3, Secret: sb + "3", low: len(sp), Name: "n3" + sj}},
 		M:        map[string]TagInner{"a": in, "b": {X: 4, Secret: "s4" + sb, low: len(sp), Name: "n4" + sj}},
@@ -376,6 +378,8 @@ func Conts() []Doc {
 		{"imap", map[int]Item{1: i1, 2: i2, -3: i3}},
 		{"nkmap", map[NString]Item{"x": i1, "y": i3}},
 		{"ifmap", map[interface{}]interface{}{"a": i1, 2: i2, true: map[string]interface{}{"X": 1}}},
+		{"ifmap2", map[interface{}]interface{}{1: i1, "1": i3, [2]string{"a b", "c"}: i1, [2]string{"a", "b c"}: i3}},
+		{"items-all", []Item{i1, i3}},
 		{"map-err", map[string]interface{}{"a": i1, "b": 5}},
 		{"emap", map[string]Item{}},
 		{"nilmap", map[string]Item(nil)},
